@@ -60,17 +60,35 @@ _column = Contract(
     ensures=['implies(self._name.start_pos is None, result is None)',
              'implies(self._name.start_pos is not None, result == self._name.start_pos[1])'],
 )
+def _replay_tree_name(inp):
+    """the real AbstractTreeName properties on a name object around a real parso token"""
+    from pyvc.replay import run_real
+    import parso
+    from jedi.inference.names import AbstractTreeName
+    leaf = parso.parse(inp['code']).get_first_leaf()
+    nm = AbstractTreeName(None, leaf)
+    out = run_real(lambda: (nm.string_name, nm.start_pos))
+    return {'TOKEN': leaf.value, 'POS': leaf.start_pos}, out
+
+
+_TREE_NAME_LIB = [{'code': c} for c in ('value = 1\n', 'größe = 1\n', '\ufb01le_name = 1\n', '\u00b5 = 1\n',
+                                        '\uff58 = 1\n', '\u017fum = 1\n', 'e\u0301 = 1\n', '  \tx = 1\n')]
+
 _tree_start = Contract(
     id='C17.AbstractTreeName.start_pos', prop='C17', clause='a tree name reports the position of its own token',
     file='jedi/inference/names.py', qualname='AbstractTreeName.start_pos', params={'self': Obj('TreeNM')},
     families=['TreeNM', 'PNode'], ret=POS,
     ensures=['result == self.tree_name.start_pos'],
+    witness={}, replay=_replay_tree_name, concrete_only=True, witness_library=_TREE_NAME_LIB,
+    concrete_ensures=['result[1] == POS'],
 )
 _tree_string = Contract(
     id='C17.AbstractTreeName.string_name', prop='C17', clause='a tree name is spelled as its token',
     file='jedi/inference/names.py', qualname='AbstractTreeName.string_name', params={'self': Obj('TreeNM')},
     families=['TreeNM', 'PNode'], ret=STR, requires=['self.tree_name.is_leaf'],
     ensures=['result == self.tree_name.value'],
+    witness={}, replay=_replay_tree_name, concrete_only=True, witness_library=_TREE_NAME_LIB,
+    concrete_ensures=['result[0] == TOKEN'],
 )
 _def_start = Contract(
     id='C17.get_definition_start_position', prop='C17',
